@@ -864,6 +864,9 @@ func (i *interpreter) callBuiltin(caller *frame, fn *ssa.Builtin, args []value) 
 		if len(args) == 1 {
 			return args[0]
 		}
+		if d0 := args[0].([]value); len(d0) < cap(d0) {
+			i.noteWrite(&d0[:cap(d0)][len(d0)])
+		}
 		if s, ok := args[1].(string); ok {
 			// append([]byte, ...string) []byte
 			arg0 := args[0].([]value)
@@ -882,6 +885,7 @@ func (i *interpreter) callBuiltin(caller *frame, fn *ssa.Builtin, args []value) 
 
 	case "copy": // copy([]T, []T) int or copy([]byte, string) int
 		src := args[1]
+		i.noteSliceWrite(args[0].([]value))
 		if s, ok := src.(string); ok {
 			dst := args[0].([]value)
 			n := 0
@@ -915,6 +919,7 @@ func (i *interpreter) callBuiltin(caller *frame, fn *ssa.Builtin, args []value) 
 		switch m := args[0].(type) {
 		case *omap:
 			if m != nil {
+				i.noteMapWrite(m)
 				m.delete(i.concKey(args[1]))
 			}
 		default:
@@ -972,6 +977,7 @@ func (i *interpreter) callBuiltin(caller *frame, fn *ssa.Builtin, args []value) 
 		switch x := args[0].(type) {
 		case *omap:
 			if x != nil {
+				i.noteMapWrite(x)
 				for _, e := range x.entries {
 					if e.live {
 						x.delete(e.key)
@@ -979,6 +985,7 @@ func (i *interpreter) callBuiltin(caller *frame, fn *ssa.Builtin, args []value) 
 				}
 			}
 		case []value:
+			i.noteSliceWrite(x)
 			for k := range x {
 				x[k] = zeroLike(x[k])
 			}
